@@ -39,13 +39,18 @@ impl Compiler {
         for (i, local) in self.locals.iter_mut().enumerate() {
             if local.register == register {
                 local.is_captured = true;
-                owner = Some(i);
+                // an immutable local can be detached early (a copy is indistinguishable), and a
+                // loop variable must be: its register is advanced between iterations
+                if local.mutable {
+                    owner = Some(i);
+                }
                 break;
             }
         }
 
-        // the upvalue stays open until the scope that DECLARES the local ends: closing it at
-        // the end of the (inner) scope the closure is created in would give the closure a copy
+        // a mutable local's upvalue stays open until the scope that DECLARES it ends: closing
+        // it at the end of the (inner) scope the closure is created in would give the closure
+        // a copy
         let scope = match owner {
             Some(i) => self.scopes.iter_mut().rev().find(|s| s.start <= i),
             None => self.scopes.last_mut(),
